@@ -98,3 +98,12 @@ func init() {
 	})
 	techniques["C31"] = "SQL statement reconstruction from SSA; map-key origin check"
 }
+
+func init() {
+	register("C24", "Cache keys distinguish every answer-relevant input", func(e *Engine, r *Reporter) {
+		ruleKeyParamsEncoded(e, r)
+		ruleKeySerializers(e, r)
+		ruleKeyCanonicalOrder(e, r)
+		ruleKeyHasStore(e, r)
+	})
+}
